@@ -8,7 +8,8 @@
 (*       bounds (lattice integers)                                         *)
 (*  batch lines {"k","case","fail":[i..],"nan":[i..],"b":[entry..]}: entry *)
 (*  i answers query i of the case; fail = calls that panicked, nan = a     *)
-(*  non-finite / out-of-budget real among facts or answer                  *)
+(*  non-finite / out-of-budget real among the facts (harness limit), nana  *)
+(*  = the same in the index's own answer (a wrong answer)                  *)
 (*   closest  {d2,cp,ri,rp}            OctTree.ClosestPoint                *)
 (*   contain  {hit,res}                ElementsContainingPoint             *)
 (*   range    {hit,res}                ElementsWithinRange                 *)
@@ -37,6 +38,8 @@ B == Line.b
 Fails(P(_)) == {i \in DOMAIN B : ~P(i)}
 Ran(i) == i \notin Range(Line.fail)
 Finite(i) == i \notin Range(Line.nan)
+\* the index's own answer is a finite number inside the budget
+Answered(i) == i \notin Range(Line.nana)
 
 Report(f) ==
     LET bad == {p \in DOMAIN f : f[p] # {}}
@@ -66,7 +69,7 @@ Closest ==
     /\ Line.k = "closest"
     /\ Report([p \in {"C16.Closest", "Harness.NaN", "Harness.Shape"} |->
           CASE p = "C16.Closest" ->
-                 Fails(LAMBDA i : Ran(i) /\ (~Finite(i) \/ ~FactsN(B[i].d2) \/ ClosestOK(B[i].d2, B[i].cp, B[i].ri, B[i].rp)))
+                 Fails(LAMBDA i : Ran(i) /\ (~Finite(i) \/ ~FactsN(B[i].d2) \/ (Answered(i) /\ ClosestOK(B[i].d2, B[i].cp, B[i].ri, B[i].rp))))
             [] p = "Harness.NaN" -> Fails(Finite)
             [] OTHER -> Fails(LAMBDA i : FactsN(B[i].d2) /\ FactsN(B[i].cp))])
     /\ UNCHANGED <<n, tree>> /\ l' = l + 1
@@ -93,7 +96,7 @@ Near ==
     /\ Report([p \in {"C16.Nearest", "Harness.NaN", "Harness.Shape"} |->
           CASE p = "C16.Nearest" ->
                  Fails(LAMBDA i : Ran(i) /\ (~Finite(i) \/ ~FactsN(B[i].te) \/
-                        (/\ NearestOK(B[i].te, B[i].ri, B[i].rt)
+                        (/\ Answered(i) /\ NearestOK(B[i].te, B[i].ri, B[i].rt)
                          /\ NoDup(B[i].vis) /\ Range(B[i].vis) \subseteq Range(B[i].hitb))))
             [] p = "Harness.NaN" -> Fails(Finite)
             [] OTHER -> Fails(LAMBDA i : FactsN(B[i].te) /\ Ids(B[i].hitb))])
@@ -110,14 +113,14 @@ Hit ==
     /\ Line.k = "hit"
     /\ Report([p \in {"C16.ListHit", "C16.BvhHit", "C16.OctHit", "Harness.NaN", "Harness.Shape"} |->
           CASE p = "C16.ListHit" ->
-                 Fails(LAMBDA i : ~Finite(i) \/ ~FactsN(B[i].te) \/ (Returned(B[i].list) /\ HitOK(B[i].te, B[i].list)))
+                 Fails(LAMBDA i : ~Finite(i) \/ ~FactsN(B[i].te) \/ (Answered(i) /\ Returned(B[i].list) /\ HitOK(B[i].te, B[i].list)))
             [] p = "C16.BvhHit" ->
                  Fails(LAMBDA i : ~Finite(i) \/ ~FactsN(B[i].te) \/
-                        (/\ Returned(B[i].bvh) /\ HitOK(B[i].te, B[i].bvh)
+                        (/\ Answered(i) /\ Returned(B[i].bvh) /\ HitOK(B[i].te, B[i].bvh)
                          /\ Returned(B[i].list) => SameHit(B[i].bvh, B[i].list)))
             [] p = "C16.OctHit" ->
                  Fails(LAMBDA i : ~Finite(i) \/ ~FactsN(B[i].te) \/
-                        (/\ Returned(B[i].oct) /\ HitOK(B[i].te, B[i].oct)
+                        (/\ Answered(i) /\ Returned(B[i].oct) /\ HitOK(B[i].te, B[i].oct)
                          /\ Returned(B[i].list) => SameHit(B[i].oct, B[i].list)))
             [] p = "Harness.NaN" -> Fails(Finite)
             [] OTHER -> Fails(LAMBDA i : FactsN(B[i].te))])
